@@ -49,13 +49,21 @@ def binary_search_lightness(
         # The text may already sit on the other side of the background (e.g. lighter
         # text on a mid-tone background). Walking it the usual way would move it
         # *towards* the background first, so keep moving away from the background
-        # whenever that side can reach the required contrast at all.
+        # whenever a small step that way (no more than the largest tolerance of the
+        # strict schedule, 5.0) already reaches the required contrast. Anything
+        # further away is left to the usual direction, whatever contrast is asked for.
         text_lum = calculate_relative_luminance(text_rgb)
         bg_lum = calculate_relative_luminance(bg_rgb)
         if text_lum != bg_lum and (text_lum > bg_lum) != search_up:
             needed = target_contrast if min_contrast is None else min_contrast
-            own_side_limit = oklch_to_rgb_safe((1.0 if text_lum > bg_lum else 0.0, c, h))
-            if calculate_contrast_ratio(own_side_limit, bg_rgb) >= needed:
+            near, far = l, (1.0 if text_lum > bg_lum else 0.0)
+            for _ in range(20):
+                mid = (near + far) / 2.0
+                if calculate_delta_e_2000(text_rgb, oklch_to_rgb_safe((mid, c, h))) <= 5.0:
+                    near = mid
+                else:
+                    far = mid
+            if calculate_contrast_ratio(oklch_to_rgb_safe((near, c, h)), bg_rgb) >= needed:
                 search_up = not search_up
 
         # Binary search bounds
